@@ -229,9 +229,12 @@ Qed.
 Print Assumptions C14_unix_int_overflow_rejected_partial.
 
 (* ---------- convert_value ------------------------------------------------------------------------------------------ *)
-Theorem C14_convert_meets_spec : forall O, oracles_ok O -> forall v t, convert O v t = spec_convert O v t.
-Proof. intros O HO. exact (convert_refines_spec gen_shapes O C14_shapes_good HO). Qed.
-Print Assumptions C14_convert_meets_spec.
+(* What is proved INDEPENDENTLY of the code's own steps: the result type / exception class for any input, the
+   inversion of str() on bool / int / float, the bool table, the digit limit.  What convert_value returns for the
+   str / list / dict targets (the property text only demands the type there) and the error cases of int / float are
+   covered by the refinement lemma Proofs/ValidatorsRefine.convert_refines_spec (model = spec_convert, which
+   transcribes the documented steps isinstance shortcut, str().strip().lower(), split on ',', partition on ':' -
+   not an independent statement, therefore not a theorem of this file) and by the correspondence with CPython. *)
 
 (* for any input and any target: an instance of the target type, or ConversionError *)
 Theorem C14_convert_type_or_ConversionErr : forall O, oracles_ok O -> forall v t,
@@ -245,6 +248,16 @@ Theorem C14_convert_inverts_str_int : forall O, oracles_ok O -> forall z s,
   py_str O (VInt z) = Ok s -> convert O (VStr s) TInt = Ok (VInt z).
 Proof. intros O HO. exact (convert_inverts_str_int gen_shapes O C14_shapes_good HO). Qed.
 Print Assumptions C14_convert_inverts_str_int.
+
+(* ... on floats: str() of a float is CPython's shortest round-trip repr, an oracle here.  Under the explicit
+   hypotheses that this text carries no surrounding whitespace and no upper-case letter and that float() reads it
+   back as f - all three are checked against CPython for every float of the stream `roundtrip` on every run -
+   convert_value gives f back.  (That repr round-trips is NOT proved: it is a property of CPython.) *)
+Theorem C14_convert_inverts_str_float : forall O, oracles_ok O -> forall f s,
+  py_str O (VFloat f) = Ok s -> py_strip s = s -> py_lower O s = s -> o_float_of_str O s = Ok f ->
+  convert O (VStr s) TFloat = Ok (VFloat f).
+Proof. intros O HO. exact (convert_inverts_str_float gen_shapes O C14_shapes_good HO). Qed.
+Print Assumptions C14_convert_inverts_str_float.
 
 (* ... and on both bools *)
 Theorem C14_convert_inverts_str_bool : forall O, oracles_ok O -> forall b s,
@@ -310,6 +323,19 @@ Example C14_email_examples :
   email_pred [97; 64; 98; 46; 99] /\ ~ email_pred [97; 64; 98; 46; 99; 10] /\ ~ email_pred [97; 64; 98].
 Proof.
   rewrite <- !email_predb_iff. repeat split; try reflexivity; vm_compute; congruence.
+Qed.
+
+(* the hypotheses of C14_convert_inverts_str_float are satisfiable: an oracle that prints 1.5 as "1.5" and reads it back *)
+Definition O_float : oracles := {|
+  o_str := fun _ => [49; 46; 53]; o_lower := fun s => s; o_upper := fun s => s;
+  o_int_of_str := fun _ => Raise ValueErrorC; o_int_of_bytes := fun _ => Raise ValueErrorC;
+  o_float_of_str := fun _ => Ok (S754_finite false 6755399441055744 (-52)); o_uuid := fun _ => Raise ValueErrorC;
+  o_fromiso := fun _ => Raise TypeErrorC; o_epoch_plus := fun _ => Raise OverflowErrorC |}.
+Example C14_float_roundtrip_example :
+  oracles_ok O_float /\ convert O_float (VStr [49; 46; 53]) TFloat = Ok (VFloat (S754_finite false 6755399441055744 (-52))).
+Proof.
+  split; [constructor; intros; try reflexivity; discriminate|].
+  apply (C14_convert_inverts_str_float O_float); try reflexivity. constructor; intros; try reflexivity; discriminate.
 Qed.
 
 (* the former witnesses, now on the right side *)
